@@ -65,7 +65,7 @@ CHECKS = {
         design="DESIGN.md §4 C07",
     ),
     "C13": dict(
-        rules="R13.1-R13.12",
+        rules="R13.1-R13.13",
         what="blockers never reach the ignore logic; suppressed-by-ignore implies recorded-as-used, only for enabled codes, and nothing else records; decision order of is_error_code_enabled (explicit disable, explicit enable, parent disabled); who may append to the error map; exit status truth table over (message, non-note, blockers, install override) and its data-flow to sys.exit; generators of diagnostics that bypass is_error_code_enabled are guarded by their own code not being disabled (truth table over the guard's atoms); the only-once slot is claimed only by recorded messages; notes next to coded errors carry a code; the ErrorWatcher stack sees every error before any code/ignore decision",
         quant="programs x ignore placements x code selections",
         technique="CFG must-pass / reachability, guard chains, who-may-call, abstract evaluation of the exit-status assignments",
@@ -113,7 +113,7 @@ CHECKS = {
         design="DESIGN.md §4 C11",
     ),
     "C20": dict(
-        rules="R20.1, R20.3-R20.12, R12.3, R20.2",
+        rules="R20.1, R20.3-R20.13, R12.3, R20.2",
         what="every loop that re-queues deferred work has a per-iteration counter compared with a constant bound that leaves the loop; type-checker deferral limited by pass_num < last_pass; partial arithmetic operators of the constant folders guarded against every failure precondition; placeholder-triggered deferrals are conditional on not being in the final iteration (defer() asserts it); constant-valued index variables are range-checked against len() of the subscripted sequence; the guard before `assert add_symbol(...)` in push_type_args recognises every type-parameter node kind and rejected parameters are not returned; no branch reports an `internal error` message as its planned outcome; a saved list index accounts for later deletions; pop() on a set built in the function is dominated by a non-emptiness test; names from configuration are not unchecked keys of the error-code registry; Instance asserts after is_subtype come after the TypeVar/union/Any cases",
         quant="input programs",
         technique="CFG cycle/must-pass queries for counter-bounded fix-points; guard-chain analysis of partial operators",
@@ -164,8 +164,8 @@ CHECKS["C18"] = dict(
 )
 
 CHECKS["C19"] = dict(
-    rules="R19.1-R19.3",
-    what="definition-kind coverage: every statement kind for which stubgen's DefinitionFinder records a top-level name has an emitting visit method in ASTStubGenerator; the string-producing visitors (AliasPrinter, AnnotationPrinter) return a value on every path of every visit method; decorators collected for a function are cleared on every path on which visit_func_def does not emit it",
+    rules="R19.1-R19.5",
+    what="definition-kind coverage: every statement kind for which stubgen's DefinitionFinder records a top-level name has an emitting visit method in ASTStubGenerator; the string-producing visitors (AliasPrinter, AnnotationPrinter) return a value on every path of every visit method; decorators collected for a function are cleared on every path on which visit_func_def does not emit it; per-class state of visit_class_def is restored (not reset) when a class ends; unary operators that are words are not glued to their operand",
     quant="generated modules x definition kinds x modes",
     technique="sibling cross-check of the two visitors' method sets with reachability of the emission call inside the generator class; CFG must-pass (every path returns a value) over the printers' methods",
     note="Syntactic validity of the emitted text, its self-consistency under type checking, agreement with the runtime module (stubtest) and preservation of the spelled annotations are properties of the output per input module and are not decided. The claim is two necessary conditions of 'every public definition appears' and 'the stub is valid text'.",
